@@ -736,13 +736,13 @@ func (r *vnRunner) searchq() {
 	case 4:
 		q = []vnTerm{{"issuer", "did:example:authority"}}
 	case 5:
-		q = []vnTerm{{"issuer", []string{"*", " * ", "**", "*:authority"}[rng.Intn(4)]}}
+		q = []vnTerm{{"issuer", []string{"*", " * ", "**", "*:authority", " * ", "* "}[rng.Intn(6)]}}
 	case 6:
 		q = []vnTerm{{"issuer", "DID:EXAMPLE:AUTHORITY"}} // "=": exact
 	case 7:
 		q = []vnTerm{{"issuer", "DID:EXAMPLE:*"}} // LIKE: SQLite compares ASCII letters case-insensitively
 	case 8:
-		q = []vnTerm{{"credentialSubject.authServerURL", "*"}}
+		q = []vnTerm{{"credentialSubject.authServerURL", []string{"*", " * ", "* ", " *"}[rng.Intn(4)]}} // a lone asterisk, also padded: IS NOT NULL
 	case 9:
 		q = []vnTerm{{"credentialSubject.authServerURL", url[:len(url)/2] + "*"}}
 	case 10:
@@ -753,7 +753,7 @@ func (r *vnRunner) searchq() {
 	case 12:
 		q = []vnTerm{{"type", []string{"TestCredential", "*Credential", "Test*", "DiscoveryRegistrationCredential", "*"}[rng.Intn(5)]}}
 	case 13:
-		q = []vnTerm{{"credentialSubject.org", []string{"x", "y", "*", "X"}[rng.Intn(4)]}}
+		q = []vnTerm{{"credentialSubject.org", []string{"x", "y", "*", "X", " * ", " *"}[rng.Intn(6)]}}
 	case 14:
 		q = []vnTerm{{"credentialSubject.nothing", "*"}}
 	case 15:
